@@ -192,7 +192,7 @@ func genText(t *rapid.T) []byte {
 	return sb.Bytes()
 }
 
-var baseNames = []string{"a.log", "b.log", "c.txt", "d", ".hidden.log", "e.log.gz", "f f.log", "z.log"}
+var baseNames = []string{"a.log", "b.log", "c.txt", "d", ".hidden.log", "e.log.gz", "f f.log", "z.log", "app[1].log", "app1.log", "q[ab].log"}
 var dirNames = []string{"sub", "deep", "x.d", "logs", ".hidden", ".git", "a b", "~tmp"}
 
 func gen(t *rapid.T) Case {
